@@ -46,7 +46,7 @@ theorem blank_chunk_independent (chunks : List Bytes) :
 record is a paragraph (`IsParagraph`: non-empty, neither begins nor ends with LF, contains no empty line `hasNN`), every
 RT is a run of LFs, at least two of them unless the record is the last one (`sepOK`), and the input's leading LFs followed
 by every record and its RT reproduce the input. (A text has exactly one decomposition `LF* (paragraph LF{2,})* [paragraph LF*]`
-of this kind, so these facts fix the record sequence; uniqueness itself is not proved here. Input with CRs — `\r\n` blank
+of this kind — `blank_spec_unique` below. Input with CRs — `\r\n` blank
 lines, one trailing CR dropped per record — is covered by `blank_chunk_independent` and the correspondence check only.) -/
 theorem blank_spec (chunks : List Bytes) (hcr : (13 : UInt8) ∉ chunks.flatten) :
     (∀ p ∈ scan splitBlank [] chunks false, IsParagraph p.1 ∧ ∀ b ∈ p.2, b = 10) ∧
@@ -55,6 +55,19 @@ theorem blank_spec (chunks : List Bytes) (hcr : (13 : UInt8) ∉ chunks.flatten)
       chunks.flatten := by
   rw [scan_eq_final _ wf_blank]
   simpa using blank_para_final chunks.flatten hcr
+
+/-- … and that decomposition is the only one: whenever a CR-free input is some run of LFs followed by paragraphs, each with a
+run of LFs after it that is at least two long unless the paragraph is the last (`GoodDecomp`), those paragraphs and runs are
+exactly the records and RTs the program sees, whatever the chunking. With `blank_spec` (existence) this is the full
+statement "with RS="" the records are the blank-line-separated paragraphs" for CR-free input. -/
+theorem blank_spec_unique (chunks : List Bytes) (hcr : (13 : UInt8) ∉ chunks.flatten) (lead : Bytes)
+    (recs : List (Bytes × Bytes)) (hlead : ∀ b ∈ lead, b = 10) (hgood : GoodDecomp recs)
+    (hcat : lead ++ catRecs recs = chunks.flatten) :
+    scan splitBlank [] chunks false = recs := by
+  obtain ⟨h1, h2, h3⟩ := blank_spec chunks hcr
+  have := para_decomp_unique _ recs _ lead (takeWhile_isNL_all_LF hcr) hlead ⟨h1, h2⟩ hgood
+    (by rw [hcat]; exact h3)
+  exact this.2
 
 /-- RS = one multi-byte character or any other literal of two or more bytes (GoAWK routes these through the regex
 splitter with a quoted literal): unconditional chunk independence and losslessness. -/
@@ -124,6 +137,9 @@ example : scan splitBlank [] [[97, 10], [10, 10, 98]] false = [([97], [10, 10, 1
 example : scan splitBlank [] [[10, 10, 97, 10], [98, 10, 10], [10, 99, 10]] false =
     [([97, 10, 98], [10, 10, 10]), ([99], [10])] ∧ (13 : UInt8) ∉ [[10, 10, 97, 10], [98, 10, 10], [10, 99, 10]].flatten := by
   simp [scan, splitBlank, blankBody, findBlank, shift, isNL, dropCR, dropLF]
+example : GoodDecomp [([97, 10, 98], [10, 10, 10]), ([99], [10])] ∧
+    [10, 10] ++ catRecs [([97, 10, 98], [10, 10, 10]), ([99], [10])] = [[10, 10, 97, 10], [98, 10, 10], [10, 99, 10]].flatten := by
+  simp [GoodDecomp, IsParagraph, hasNN, sepOK, catRecs]
 example : IsParagraph [97, 10, 98] ∧ ¬ IsParagraph [97, 10, 10, 98] ∧ ¬ IsParagraph [97, 10] ∧
     sepOK [([97], [10, 10]), ([98], [10])] = true ∧ sepOK [([97], [10]), ([98], [10])] = false := by
   simp [IsParagraph, hasNN, sepOK]
